@@ -228,3 +228,32 @@ def read_sim_traces(prefix):
         if states:
             traces.append(states)
     return traces
+
+
+def printed_tuples(out, tag):
+    """Values printed by PrintT(<<tag, ...>>); robust against wrapping over several lines."""
+    res = []
+    i = 0
+    pat = re.compile(r'<<\s*"%s"' % re.escape(tag))
+    while True:
+        m = pat.search(out, i)
+        if not m:
+            break
+        i = m.start()
+        depth = 0
+        j = i
+        while j < len(out):
+            if out.startswith("<<", j):
+                depth += 1
+                j += 2
+                continue
+            if out.startswith(">>", j):
+                depth -= 1
+                j += 2
+                if depth == 0:
+                    break
+                continue
+            j += 1
+        res.append(parse_value(out[i:j]))
+        i = j
+    return res
